@@ -164,3 +164,27 @@ Proof.
   - rewrite compare_scalar by (intros; discriminate).
     destruct v; try reflexivity. exfalso. eapply H. reflexivity.
 Qed.
+
+(* all six operators on two doubles are the IEEE comparisons (SFcompare): with a NaN operand only != holds *)
+Theorem double_all_six : forall x y,
+  op_eq (JDouble x) (JDouble y) = f_eq x y /\ op_ne (JDouble x) (JDouble y) = f_ne x y /\
+  op_lt (JDouble x) (JDouble y) = f_lt x y /\ op_gt (JDouble x) (JDouble y) = f_gt x y /\
+  op_le (JDouble x) (JDouble y) = f_le x y /\ op_ge (JDouble x) (JDouble y) = f_ge x y.
+Proof.
+  intros x y. unfold op_eq, op_ne, op_lt, op_gt, op_le, op_ge.
+  rewrite compare_scalar by (intros; discriminate).
+  cbn [compare_step numv_of arith nv_to_double]. unfold cmp_f64, f_ne, f_eq, f_lt, f_gt, f_le, f_ge.
+  destruct (SFcompare x y) as [[| |]|]; cbn [cmp_rev is_equal negb]; repeat split.
+Qed.
+
+(* an integer against a double is compared as doubles (the integer converted, round to nearest even) *)
+Theorem int_vs_double : forall z d,
+  op_eq (JInt z) (JDouble d) = f_eq (f_of_Z F64 z) d /\
+  op_lt (JInt z) (JDouble d) = f_lt (f_of_Z F64 z) d /\
+  op_gt (JInt z) (JDouble d) = f_gt (f_of_Z F64 z) d.
+Proof.
+  intros z d. unfold op_eq, op_lt, op_gt.
+  rewrite compare_scalar by (intros; discriminate).
+  cbn [compare_step numv_of arith nv_to_double]. unfold cmp_f64, f_eq, f_lt, f_gt.
+  destruct (SFcompare (f_of_Z F64 z) d) as [[| |]|]; cbn [cmp_rev is_equal]; repeat split.
+Qed.
